@@ -887,7 +887,9 @@ class SklearnEKFAdapter(BaseEstimator):
 
             flattened.extend(self._flatten_dict_diagonal(mapping, arglist))
 
-        return flattened
+        # The declared return type: noise given as e.g. Fraction or sympy
+        # Rational would otherwise reach the optimizer as an object array
+        return [float(value) for value in flattened]
 
     def _inverse_flatten_scoring_params(self, flattened: list[float]) -> dict[str, Any]:
         # Note: duplicated code from EKF
